@@ -10,4 +10,4 @@ extern void verif_on_error (void);
 void error (const char *fmt, ...) { (void) fmt; verif_lpc_error = 1; verif_on_error (); VERIF_END_PATH (); for (;;) ; }
 void bad_arg (int arg, int instr) { (void) arg; (void) instr; verif_lpc_error = 1; verif_on_error (); VERIF_END_PATH (); for (;;) ; }
 void bad_argument (svalue_t *val, int type, int arg, int instr) { (void) val; (void) type; (void) arg; (void) instr; verif_lpc_error = 1; verif_on_error (); VERIF_END_PATH (); for (;;) ; }
-void fatal (const char *fmt, ...) { (void) fmt; __CPROVER_assert (0, "ORACLE driver-terminates: fatal() reached"); VERIF_END_PATH (); for (;;) ; }
+void fatal (char *fmt, ...) { (void) fmt; __CPROVER_assert (0, "ORACLE driver-terminates: fatal() reached"); VERIF_END_PATH (); for (;;) ; }
